@@ -5,58 +5,81 @@ Theorems about the model `Earverif.Validate.selectItems` (a transliteration of
 `select_rendering_items` with the pack allocator abstracted to an oracle, see Model/Validate.lean);
 the model is tied to /repo by harness/c14.py on every run.
 
-`select_no_internal_partial` is PARTIAL:
-* outside the model: Matrix-typed packs/channels (the model answers `unmodelled`), alternativeValueSet
-  references from programmes/contents, message formatting, attrs type validators, `RecursionError`
-  (graph walks use fuel = number of elements; the loop validations run first);
-* hypothesis `MultitreeSound` — "`_validate_pack_channel_multitree` accepting the document implies that
-  every channel is on exactly one pack path" — is not proved here; the driver evaluates it on every
-  correspondence case (`mt=1`).
-The former hypotheses `hoaNonempty` and `supportedTypes` are gone: since commits 03146b0 and 76cae51 the
-code raises `AdmError` for a HOA pack without channels and for a pack type it cannot render, so these are
-ordinary ADM outcomes of the model (`hoa_empty_pack_is_adm`, `unsupported_type_is_adm`).
+`select_no_internal_partial` is PARTIAL only because these are outside the model: message formatting, attrs
+type validators (and with them cross-class references), `RecursionError` (graph walks use fuel = number of
+elements; the loop validations run first), rtime/duration and the HOA/absoluteDistance parameters that generated
+documents leave unset.  Inside the model since round 2: the Matrix branch (`_validate_matrix_types`,
+`matrix.type_of`, `input_pack_format`, `get_wrapped_packs`/`wrap_matrix_pack`,
+`MatrixAllocationPack.output_channel_allocation`), `_validate_avs_references` / `_get_alternativeValueSet`, and
+the proof of `MultitreeSound` (`multitree_sound`), which is no longer a hypothesis.
+Structural hypotheses (always true of parsed documents, like dangling references being impossible):
+`wellScoped` and `avsOwned` (an alternativeValueSet element is the child of one audioObject).
 -/
-import Earverif.Proofs.C14
+import Earverif.Proofs.C14Matrix
 namespace Earverif.Validate
 open Earverif.AdmV
 
 /-- the graph-theoretic fact `_get_pack_format_path`'s `[found_path] = ...` relies on -/
 def MultitreeSound (d : Doc) : Prop := validateMultitree d = .ok () → uniquePaths d = true
 
-/-- After `validate_structure` succeeded every later unpacking / dereference / assert is safe: item
-selection never ends in a non-ADM exception. -/
+/-- proved (round 2): a successful `_validate_pack_channel_multitree` DFS visited pairwise different nodes, so
+every channel below a pack is yielded once by `pack_format_channels` and lies on exactly one pack path -/
+theorem multitreeSound_holds (d : Doc) : MultitreeSound d := multitree_sound d
+
+/-- After `validate_structure` succeeded every later unpacking / dereference / assert / `type_of` is safe: item
+selection never ends in a non-ADM exception — on every well-scoped document graph, Matrix packs included, for
+every programme / complementary-object selection and every outcome of the allocator. -/
 theorem select_no_internal_partial (d : Doc) (prog : Option Nat) (sel : List Nat) (oracle : Oracle)
-    (hw : d.wellScoped = true)
+    (hw : d.wellScoped = true) (hown : d.avsOwned = true)
     (hprog : ∀ p, prog = some p → p < d.programmes.length)
-    (horacle : OracleScoped d oracle) (hmt : MultitreeSound d) :
+    (horacle : ∀ pats, patterns d = .ok pats → OracleScoped pats oracle) :
     ∀ k, selectItems d prog sel oracle ≠ .error (.internal k) := by
   intro k hk
   unfold selectItems at hk
   split at hk
-  · cases hk
-  · split at hk
+  · rename_i e he; injection hk with hk; subst hk
+    exact validateStructure_noInt d k he
+  · rename_i hv
+    have hs := validateStructure_ok hv
+    split at hk
     · rename_i e he; injection hk with hk; subst hk
-      exact validateStructure_noInt d k he
-    · rename_i hv
-      have hs := validateStructure_ok hv
+      exact patterns_noInt hs k he
+    · rename_i pats hpats
       split at hk
       · rename_i e he; injection hk with hk; subst hk
         exact selectComplementary_noInt d sel k he
       · split at hk
         · rename_i e he; injection hk with hk; subst hk
           exact selectStates_noInt hprog k he
-        · exact sumE_noInt (fun i st _ => processState_noInt hw hs horacle (hmt hs.multitree) i st) 0 k hk
+        · rename_i states hstates
+          exact sumE_noInt (fun i st hst => processState_noInt hw hs (patterns_ok hs hpats) (horacle pats hpats)
+            (multitree_sound d hs.multitree) i st
+            (avsSelected_noInt hs hown (selectStates_ok hstates st (List.mem_filter.mp hst).1))) 0 k hk
 
-/-- `validate_structure` alone raises only ADM errors, on every document graph (no hypothesis at all;
-`_partial` only because the Matrix branch and `_validate_avs_references` are outside the model). -/
+/-- The allocator's packs can always be built after validation: `matrix.type_of`, `[encode_pack] = ...` and
+`encode_pack.inputPackFormat` in `wrap_matrix_pack` are total, whatever the declaration order of the packs. -/
+theorem allocator_init_no_internal (d : Doc) (hv : validateStructure d = .ok ()) :
+    ∀ k, patterns d ≠ .error (.internal k) := patterns_noInt (validateStructure_ok hv)
+
+/-- `validate_structure` alone raises only ADM errors, on every document graph (no hypothesis at all), Matrix
+branch and `_validate_avs_references` included: every `matrix.type_of`, `[encode_apf] = ...`,
+`[block_format] = ...` and `assert obj is not None` in it is preceded by its guard, in any declaration order of
+the packs (`_partial` only for what is outside the model: attrs validators, messages, unset parameters). -/
 theorem validate_no_internal_partial (d : Doc) :
     ∀ k, validateStructure d ≠ .error (.internal k) := validateStructure_noInt d
 
+/-- `_get_alternativeValueSet`'s `assert ... "more than one active alternativeValueSet"` cannot fail for a state
+yielded by `_select_programme_content_objects` once `_validate_avs_references` accepted the document. -/
+theorem avs_assert_total (d : Doc) (prog : Option Nat) (states : List State)
+    (hv : validateStructure d = .ok ()) (hown : d.avsOwned = true) (hst : selectStates d prog = .ok states) :
+    ∀ st ∈ states, ∀ k, avsSelected d st ≠ .error (.internal k) :=
+  fun st h => avsSelected_noInt (validateStructure_ok hv) hown (selectStates_ok hst st h)
+
 /-- No allocation (0 solutions): `select_pack_mapping` never yields items, and what it raises is not a
 non-ADM exception — the diagnostics in `raise_error` are total on the validated tracks. -/
-theorem conflicting_is_error (d : Doc) (oracle : Oracle) (i : Nat) (st : State)
+theorem conflicting_is_error (d : Doc) (pats : List Pattern) (oracle : Oracle) (i : Nat) (st : State)
     (hw : d.wellScoped = true) (hs : validateStructure d = .ok ()) (ho : oracle i = some []) :
-    (∀ m, processState d oracle i st ≠ .ok m) ∧ ∀ k, processState d oracle i st ≠ .error (.internal k) := by
+    (∀ m, processState d pats oracle i st ≠ .ok m) ∧ ∀ k, processState d pats oracle i st ≠ .error (.internal k) := by
   refine ⟨processState_conflicting_never_items ho, ?_⟩
   have hso := validateStructure_ok hs
   have hlt := selectedOf_tracks_lt hw st
@@ -77,10 +100,10 @@ theorem conflicting_is_error (d : Doc) (oracle : Oracle) (i : Nat) (st : State)
     · exact raiseError_noInt (hok hv) k hk
 
 /-- Ambiguous allocation (≥ 2 solutions): never resolved to items, never a non-ADM exception. -/
-theorem ambiguous_is_error (d : Doc) (oracle : Oracle) (i : Nat) (st : State)
+theorem ambiguous_is_error (d : Doc) (pats : List Pattern) (oracle : Oracle) (i : Nat) (st : State)
     (s1 s2 : List Nat) (rest : List (List Nat))
     (hw : d.wellScoped = true) (hs : validateStructure d = .ok ()) (ho : oracle i = some (s1 :: s2 :: rest)) :
-    (∀ m, processState d oracle i st ≠ .ok m) ∧ ∀ k, processState d oracle i st ≠ .error (.internal k) := by
+    (∀ m, processState d pats oracle i st ≠ .ok m) ∧ ∀ k, processState d pats oracle i st ≠ .error (.internal k) := by
   refine ⟨processState_ambiguous_never_items ho, ?_⟩
   have hso := validateStructure_ok hs
   have hlt := selectedOf_tracks_lt hw st
@@ -106,7 +129,6 @@ theorem raiseError_adm (d : Doc) (packs : Option (List Nat)) (tracks : List Nat)
     (h : ∀ t ∈ tracks, TrackOk d t) :
     raiseError d packs tracks n a = .error (.adm a) ∨
       ∃ a', possibleReferenceErrors d packs tracks n = .error (.adm a') ∨
-        possibleReferenceErrors d packs tracks n = .error .unmodelled ∨
         possibleReferenceErrors d packs tracks n = .error .noOracle := by
   unfold raiseError
   cases hp : possibleReferenceErrors d packs tracks n with
@@ -116,8 +138,7 @@ theorem raiseError_adm (d : Doc) (packs : Option (List Nat)) (tracks : List Nat)
     cases e with
     | adm a' => exact ⟨a', Or.inl rfl⟩
     | internal k => exact absurd hp (possibleReferenceErrors_noInt h k)
-    | unmodelled => exact ⟨a, Or.inr (Or.inl rfl)⟩
-    | noOracle => exact ⟨a, Or.inr (Or.inr rfl)⟩
+    | noOracle => exact ⟨a, Or.inr rfl⟩
 
 /-- `possible_reference_errors` yields no non-ADM exception for either referencing style, on tracks that
 passed `validate_selected_audioTrackUID` in a validated document (`TrackOk`; for a v1-style track the
@@ -213,5 +234,92 @@ theorem unsupported_type_is_adm :
     selectItems { docV2 with packs := [{ type := .binaural, channels := [0] }],
                              channels := [{ type := .binaural, blocks := [objBlock] }] } none [] oracleOne
       = .error (.adm .unsupportedtype) := by decide
+
+/-! ### Matrix documents -/
+
+def dsBlock : Block := {}
+def mxBlock (out : Option Nat) (ins : List Nat) : Block := { outCh := out, coeffs := ins.map (fun c => { input := some c }) }
+
+/-- mono → stereo direct matrix: packs 0 mono (channel 0), 1 stereo (channels 1,2), 2 direct matrix (channels 3,4);
+the object references the matrix pack, its track the mono channel -/
+def docDirect : Doc := {
+  v2Allowed := true
+  programmes := [{ contents := [0] }], contents := [{ objects := [0] }]
+  objects := [{ packs := [2], tracks := [some 0] }]
+  packs := [{ type := .directSpeakers, channels := [0] }, { type := .directSpeakers, channels := [1, 2] },
+            { type := .matrix, channels := [3, 4], input := some 0, output := some 1 }]
+  channels := [{ type := .directSpeakers, blocks := [dsBlock] }, { type := .directSpeakers, blocks := [dsBlock] },
+               { type := .directSpeakers, blocks := [dsBlock] },
+               { type := .matrix, blocks := [mxBlock (some 1) [0]] }, { type := .matrix, blocks := [mxBlock (some 2) [0]] }]
+  trackUIDs := [{ trackIndex := some 1, pack := some 2, channel := some 0 }] }
+
+/-- `_PackAllocator.packs` of `docDirect`: mono, stereo, matrix/input-channels, matrix/pre-applied -/
+example : (patterns docDirect).map (·.length) = .ok 4 := by decide
+example : docDirect.wellScoped = true := by decide
+/-- direct use: the allocator's third pack; two DirectSpeakers items -/
+example : selectItems docDirect none [] (fun _ => some [[2]]) = .ok 2 := by decide
+example : selectItems docDirect none [] oracleNone = .error (.adm .conflicting) := by decide
+-- matrix fault classes
+example : selectItems { docDirect with packs := [{ type := .directSpeakers, channels := [0] }, { type := .directSpeakers, channels := [1, 2] },
+    { type := .matrix, channels := [3, 4] }] } none [] oracleNone = .error (.adm .mxnoio) := by decide
+example : selectItems { docDirect with channels := [{ type := .directSpeakers, blocks := [dsBlock] }, { type := .directSpeakers, blocks := [dsBlock] },
+    { type := .directSpeakers, blocks := [dsBlock] },
+    { type := .matrix, blocks := [mxBlock (some 1) [1]] }, { type := .matrix, blocks := [mxBlock (some 2) [0]] }] } none [] oracleNone
+      = .error (.adm .mxinputch) := by decide
+example : selectItems { docDirect with channels := [{ type := .directSpeakers, blocks := [dsBlock] }, { type := .directSpeakers, blocks := [dsBlock] },
+    { type := .directSpeakers, blocks := [dsBlock] },
+    { type := .matrix, blocks := [mxBlock none [0]] }, { type := .matrix, blocks := [mxBlock (some 2) [0]] }] } none [] oracleNone
+      = .error (.adm .mxoutmissing) := by decide
+example : selectItems { docDirect with channels := [{ type := .directSpeakers, blocks := [dsBlock] }, { type := .directSpeakers, blocks := [dsBlock] },
+    { type := .directSpeakers, blocks := [dsBlock] },
+    { type := .matrix, blocks := [] }, { type := .matrix, blocks := [mxBlock (some 2) [0]] }] } none [] oracleNone
+      = .error (.adm .mxchblocks) := by decide
+
+/-- former finding F2 (fixed in 76cae51): a matrix coefficient without inputChannelFormat is an ADM error from
+`ADM.validate()` (was ValueError) -/
+theorem coefficient_without_input_is_adm :
+    selectItems { docDirect with channels := [{ type := .directSpeakers, blocks := [dsBlock] }, { type := .directSpeakers, blocks := [dsBlock] },
+      { type := .directSpeakers, blocks := [dsBlock] },
+      { type := .matrix, blocks := [{ outCh := some 1, coeffs := [{ input := none }] }] },
+      { type := .matrix, blocks := [mxBlock (some 2) [0]] }] } none [] oracleNone
+      = .error (.adm .coeffnoinput) := by decide
+
+/-- former finding F3 (fixed in 592dfc9): a decode matrix pack (pack 0) declared BEFORE the Matrix pack it
+references as encode pack (pack 1), which has neither input nor output reference: ADM error (was the
+`assert False` of `matrix.type_of`) -/
+theorem encode_without_refs_is_adm :
+    selectItems { v2Allowed := true,
+                  packs := [{ type := .matrix, output := some 2, encodePacks := [1] }, { type := .matrix },
+                            { type := .directSpeakers }] } none [] oracleNone
+      = .error (.adm .mxnoio) := by decide
+
+/-! ### alternativeValueSets -/
+
+/-- object 0 owns AVS tokens 7 and 8; the programme references 7 -/
+def docAvs : Doc := { docV2 with
+  programmes := [{ contents := [0], avs := [7] }]
+  objects := [{ packs := [0], tracks := [some 0], params := true, avs := [7, 8] }] }
+
+example : docAvs.avsOwned = true ∧ docAvs.wellScoped = true := by decide
+example : selectItems docAvs none [] oracleOne = .ok 1 := by decide
+example : selectItems { docAvs with programmes := [{ contents := [0], avs := [9] }] } none [] oracleOne
+    = .error (.adm .avsnotin) := by decide
+example : selectItems { docAvs with programmes := [{ contents := [0], avs := [7, 7] }] } none [] oracleOne
+    = .error (.adm .avsdup) := by decide
+example : selectItems { docAvs with contents := [{ objects := [0], avs := [7] }] } none [] oracleOne
+    = .error (.adm .avsboth) := by decide
+example : selectItems { docAvs with contents := [{ objects := [0], avs := [8] }] } none [] oracleOne
+    = .error (.adm .avsmulti) := by decide
+
+/-- why `avsOwned` is a hypothesis: an AVS shared by two objects (impossible in a parsed document) defeats the
+conflict check of `_validate_avs_references` (it files the reference under the first owner only) and the assert
+in `_get_alternativeValueSet` fails for the second owner -/
+theorem shared_avs_defeats_validation :
+    selectItems { docV2 with
+      programmes := [{ contents := [0], avs := [7, 8] }]
+      contents := [{ objects := [0, 1] }]
+      objects := [{ packs := [0], tracks := [some 0], params := true, avs := [7] },
+                  { packs := [0], tracks := [some 0], params := true, avs := [7, 8] }] } none []
+      (fun _ => some [[0]]) = .error (.internal .assert) := by decide
 
 end Earverif.Validate
